@@ -253,7 +253,18 @@ class ReduceStream(Stream):
         except Exception as ex:
             return {"error": type(ex).__name__, "text": str(ex)[:200]}
         res = [common.req_canon(m, t) for m in out]
-        return {"ok": res, "foreign": [str(s) for s in t.by_id[n0:]]}
+        # history: the same container asked once before its last members were filed (as the solution loader does:
+        # requirements are appended to a requirer's metadata after it has already been asked)
+        hist = None
+        if len(rs) >= 2:
+            try:
+                c2 = RequirementContainer("c", list(rs[:-1]))
+                list(c2.requires(case["extra"]))
+                c2.reqs.append(rs[-1])
+                hist = [common.req_canon(m, t) for m in c2.requires(case["extra"])]
+            except Exception as ex:
+                hist = {"error": type(ex).__name__}
+        return {"ok": res, "foreign": [str(s) for s in t.by_id[n0:]], "after_history": hist}
 
     def model_request(self, case, r):
         t, rs = self._objs(case)
@@ -285,6 +296,8 @@ class ReduceStream(Stream):
         arb = "/arbitrary-equality" if any("===" in t for t in case["reqs"]) else ""
         if "error" in r:
             return [("C17/reduce-raises" + arb, r)]
+        if r.get("after_history") is not None and r["after_history"] != r["ok"]:
+            fails.append(("C17/reduce-depends-on-earlier-calls", {"fresh": r["ok"], "asked-before-the-last-member-was-filed": r["after_history"]}))
         t, rs = self._objs(case)
         from req_compile.containers import RequirementContainer
         out = list(RequirementContainer("c", rs).requires(case["extra"]))
